@@ -8,7 +8,7 @@ for d in sorted(x for x in glob.glob(os.path.join(V, "seeded", "*")) if os.path.
     notes = open(os.path.join(d, "notes.md")).read().strip().split("\n")
     title = next((l.strip("# ").strip() for l in notes if l.strip()), "")
     det = m["detected_by"]
-    first = "missed" if det.startswith("initially MISSED") or det.startswith("MISSED") else ("inconclusive" if det.startswith("initially INCONCLUSIVE") or det.startswith("reported INCONCLUSIVE") else "caught")
+    first = "missed" if det.startswith("initially MISSED") or det.startswith("MISSED") else ("inconclusive" if det.startswith("initially INCONCLUSIVE") or det.startswith("reported INCONCLUSIVE") else ("unconfirmed" if det.startswith("initially UNCONFIRMED") else "caught"))
     rows.append("| %s | %s | %s | %s |" % (m["seed"], title[:110].replace("|", "/"), first, det.replace("|", "/")[:260]))
 table = "| seed | change (first line of its notes) | first run | detection |\n|---|---|---|---|\n" + "\n".join(rows)
 p = os.path.join(V, "DESIGN.md")
